@@ -19,6 +19,13 @@ Parties
                   independent re-implementation of the iteration (Lean: refGpa, theorem gpa_eq_fresh_iteration).
   table           Generated/C08RW.lean, rewritten on every run: the instance attributes set_target reads / writes / writes in
                   place on live objects of every class and option combination; GenProps/C08.lean: they are the model's.
+  translation     Generated/C08Src.lean, rewritten on every run from the SOURCE TEXT of the working tree (harness/trans_c08.py,
+                  harness/py2lean2.py): set_target and the verified setter, every _sync_state_from_target, every alignment
+                  constructor and its homogeneous parents, _build_coefficients / _rebuild_target_vectors, copy / pseudoinverse,
+                  the parameter-edit overrides, procrustes_alignment, GeneralizedProcrustesAnalysis (the recursion with both
+                  exits); GenProps/C08Src.lean: each translated definition equals the Core definition, for all arguments;
+                  GenProps/C08SrcProps.lean: the property for the translated definitions (sync after init = init, retarget =
+                  rebuild, GPA transforms = fresh alignments on every exit path).
 """
 import json
 
@@ -33,7 +40,11 @@ INFO = dict(
               "`decide` obligations; heap refinement for PointCloud objects sharing arrays, in-place matrix writes, "
               "shallow / deep copies; GPA equal to the iteration with fresh alignments only) + model/implementation "
               "correspondence with independently computed reference fits and Python object identities + "
-              "fresh-construction oracle on random histories",
+              "fresh-construction oracle on random histories + SOURCE TRANSLATION: 65 definitions (57 functions, 8 option defaults) of the alignment machinery "
+              "are translated from the source text of the working tree into Lean on every run (harness/trans_c08.py over "
+              "harness/py2lean2.py) and proved equal, for all arguments, to the Core definitions the theorems are about "
+              "(62 obligations, shape-independent proofs), so that the property theorems are also stated and proved for "
+              "the translated definitions themselves",
     level_text="Theorems over an executable model of Targetable.set_target, the seven alignment constructors, every "
                "_sync_state_from_target (which remembered options each re-fit passes, which part of the homogeneous matrix "
                "it overwrites in place), _sync_target_from_state, from_vector_inplace / set_rotation_matrix / "
@@ -56,7 +67,32 @@ INFO = dict(
                "histories (all classes x all option combinations x set_target / copy / apply / parameter edits / caller "
                "writes / rejected targets, aliasing PointClouds, int / float32 / read-only arrays, pinv-born objects, 2-D "
                "and 3-D) and diffing matrices / maps / targets / held-object identities / array contents / verdicts "
-               "against the Lean driver; the fresh-construction oracle decides the property on the real code.",
+               "against the Lean driver; the fresh-construction oracle decides the property on the real code.  "
+               "TRANSLATED rather than transcribed (Generated/C08Src.lean, from the source text on every run; "
+               "GenProps/C08Src.lean proves `translated = Core` for all arguments): Targetable.n_dims / n_points / set_target / "
+               "_target_setter_with_verification / _verify_target / _sync_target_from_state; Alignment.__init__ / "
+               "_verify_source_and_target / aligned_source / _target_setter / _new_target_from_state; the "
+               "_sync_state_from_target of AlignmentAffine / AlignmentSimilarity / AlignmentRotation / AlignmentTranslation / "
+               "AlignmentUniformScale / ThinPlateSplines / AbstractPWA (which fit, of which point sets, with which "
+               "remembered option, written into which part of the matrix) behind a dispatcher generated from the live "
+               "MROs; ThinPlateSplines._build_coefficients and AbstractPWA._rebuild_target_vectors numpy expression by "
+               "numpy expression; the __init__ of the seven alignment classes (option storage, defaults of every option "
+               "parameter, the target re-binding after the constructor's own re-sync) and of Homogeneous / Affine / "
+               "Similarity / Rotation / Translation / UniformScale / PythonPWA / CachedPWA, for every newborn object; the "
+               "overrides AlignmentAffine._set_h_matrix, AlignmentRotation.set_rotation_matrix, the three "
+               "_from_vector_inplace, Homogeneous._compose_before_inplace / _compose_after_inplace (= the model's vEdit), "
+               "HomogFamilyAlignment.copy / pseudoinverse and ThinPlateSplines.pseudoinverse (= the model's pinv); "
+               "procrustes_alignment's plumbing (rotation=False composes no rotation, allow_mirror reaches only the "
+               "rotation fit); MultipleAlignment.__init__ (argument checks), GeneralizedProcrustesAnalysis.__init__ and "
+               "_recursive_procrustes: the recursion with the `n_iterations > max_iterations` exit and the convergence exit "
+               "equals the model's iteration for every max_iterations (Python's recursion depth as fuel that is never the "
+               "limit).  For the translated definitions themselves: (6) `_sync_state_from_target` after `__init__` with "
+               "the same target is the identity, for every class and option value (src_sync_after_init); (7) after any "
+               "history of translated set_target calls the object is what the translated constructor builds to the last "
+               "accepted target (src_retarget_eq_rebuild); a wrong-shaped target raises ValueError and changes nothing "
+               "(src_set_target_rejects); (8) on both exits of the translated recursion GPA's transforms are the translated "
+               "fresh AlignmentSimilarity of every source to the reported target, n_iterations <= max_iterations + 1 and "
+               "converged = False only on the max_iterations exit (src_gpa_transforms_are_alignments).",
     level_note="Trusted: Lean kernel; axioms propext/Classical.choice/Quot.sound; Python harness (generators, oracle, "
                "reference fits, attribute read tracing); driver parser.  Contract parameters (abstract in the theorems, their "
                "values supplied by the harness's own numpy code and thereby cross-checked against menpo on every case): "
@@ -64,7 +100,12 @@ INFO = dict(
                "solve with singular-value floor, barycentric map, Delaunay triangulation, GPA mean/rescale/convergence test.  "
                "Float rounding (model exact; 1e-9 relative tolerance, 1e-5 when a float32 array is involved).  Python "
                "reference semantics of attributes and ndarrays are modelled by the heap of Core/C08Heap.lean (objects, "
-               "references, whole-array sharing), checked by identity comparisons on every case, not verified.",
+               "references, whole-array sharing), checked by identity comparisons on every case, not verified.  "
+               "Source translation: harness/py2lean2.py + harness/trans_c08.py (the translator and the C08 rule table: which "
+               "Lean term each Python expression / statement stands for) are trusted; what the rules do not translate but "
+               "name: Affine._set_h_matrix and Rotation.set_rotation_matrix (numpy shape checks; Core/C08Py.lean: affineSetH, "
+               "rotationSetR), Similarity._from_vector_inplace (the matrix a parameter vector stands for), every numpy "
+               "operation (abstract functions of `Np`, `GpaK`, `ProcK`).",
     rule="a case = one history on one alignment object family (class, options, dimension): 1-6 set_target calls drawn "
          "from 3-5 valid targets (float64 / int64 / float32 arrays, some read-only), wrong-shaped targets, the source "
          "itself and PointClouds sharing an array, copies at random points, calls on copies, pure apply calls, in-place "
@@ -84,15 +125,24 @@ INFO = dict(
              "in-place compositions: the theorems take the operand's matrix to be class-shaped (identity outside the part "
              "the class owns) - what composes_inplace_with enforces by type; that every Rotation / Translation / "
              "UniformScale object has such a matrix is C03's subject.  Products are computed exactly in the model",
-             "pseudoinverse() is a model operation at value level only (theorems base_pinv, pinv_then_set_target; the "
-             "inverse matrix is a contract parameter that must stay class-shaped); pinv-born objects are in the histories "
-             "(oracle, and correspondence from their first set_target on) but the driver does not run pinv, and "
-             "PiecewiseAffine.pseudoinverse (which keeps the old triangle list) is left out",
-             "PiecewiseAffine built on a PointCloud source keeps a TriMesh made from a copy of the caller's points; the "
-             "model keeps the caller's reference (unobservable: sources are never written)"],
+             "pseudoinverse() is a model operation at value level only (theorems base_pinv, pinv_then_set_target; "
+             "HomogFamilyAlignment.pseudoinverse and ThinPlateSplines.pseudoinverse are translated from source and proved "
+             "equal to it; the inverse matrix is a contract parameter that must stay class-shaped); pinv-born objects are "
+             "in the histories (oracle, and correspondence from their first set_target on) but the driver does not run "
+             "pinv, and PiecewiseAffine.pseudoinverse (which keeps the old triangle list) is left out",
+             "translated source: the equalities are at value level (aliasing is the heap model's subject); the obligations "
+             "through _sync_target_from_state (constructors of AlignmentAffine / AlignmentRotation, parameter edits) assume "
+             "that applying a transform keeps the number of points and dimensions (ApplyKeepsShape: satisfiable, examples "
+             "in GenProps/C08SrcProps.lean); the TPS / PWA obligations assume that the abstract fits are the numpy "
+             "expressions the code assembles (NpFits; satisfiable for every Np: Ext.withNp); reading an attribute that "
+             "was never stored is modelled as the callee's default (the real code raises AttributeError; either way the "
+             "obligation `sync after init = init` fails); GeneralizedProcrustesAnalysis: max_iterations is the constant "
+             "the constructor assigns (100); a subclass pinning it (as the harness does to drive the other exit) is "
+             "covered by genRecursiveProcrustes_eq, which holds for every max_iterations"],
     assumptions=["numpy / LAPACK SVD, solve and lstsq are deterministic and accurate to 1e-10 on the conditioned inputs "
                  "the generators produce (singular values of every correlation matrix separated by >= 5% of the largest)"],
-    design_ref="DESIGN.md section 6, C08; section 7 items 6 and 22; section 14.2 (seeded C08-1..3)")
+    design_ref="DESIGN.md section 6, C08; section 7 items 6 and 22; section 14.2 (seeded C08-1..4); section 14.5 "
+               "(translator tie); notes/BUILDER_GUIDE.md (py2lean2)")
 IMPORTS = ["MenpoModel.Props.C08", "MenpoModel.GenProps.C08"]
 TARGETS = ["MenpoModel.Props.C08", "MenpoModel.Drive.C08", "MenpoModel.GenProps.C08"]
 THEOREMS = [
@@ -163,6 +213,32 @@ THEOREMS = [
     "MenpoModel.GenProps.C08.dispatch_ok",
     "MenpoModel.GenProps.C08.dispatch_covers",
 ]
+# obligations over the TRANSLATED source (Generated/C08Src.lean is rewritten from the source text on every run)
+SRC_THEOREMS = ["MenpoModel.GenProps.C08Src." + t for t in [
+    # Targetable / Alignment: the verified setter
+    "genNDims_eq", "genNPoints_eq", "genVerifyTarget_eq", "genTargetSetter_eq", "genTargetSetterWithVerification_eq",
+    "genAlignedSource_eq", "genNewTargetFromState_eq", "genSyncTargetFromState_eq", "genSyncTargetFromState_hom",
+    # every _sync_state_from_target, the dispatcher, set_target
+    "genSync_AlignmentAffine_eq", "genSync_AlignmentSimilarity_eq", "genSync_AlignmentRotation_eq",
+    "genSync_AlignmentTranslation_eq", "genSync_AlignmentUniformScale_eq", "genBuildCoefficients_eq",
+    "genRebuildTargetVectors_eq", "genSync_ThinPlateSplines_eq", "genSync_AbstractPWA_eq", "genSync_eq", "genSetTarget_eq",
+    # constructors
+    "genVerifySourceAndTarget_eq", "genInit_Alignment_eq", "genInit_Similarity_eq", "genInit_Affine_eq",
+    "genInit_AlignmentTranslation_eq", "genInit_AlignmentUniformScale_eq", "genInit_AlignmentSimilarity_eq",
+    "genInit_AlignmentAffine_eq", "genInit_AlignmentRotation_eq", "genInit_ThinPlateSplines_eq", "genInit_AbstractPWA_eq",
+    "genInit_PythonPWA_eq", "genInit_CachedPWA_eq", "genBuild_eq", "genDefaultOpts_eq", "genDefaults_eq",
+    # what may happen between two set_target calls: copy, pseudoinverse, parameter edits; procrustes_alignment's plumbing
+    "syncTarget_hom", "genCopy_eq", "genPseudoinverse_eq", "genPseudoinverse_ThinPlateSplines_eq",
+    "genFromVector_Translation_eq", "genFromVector_UniformScale_eq", "genFromVector_AlignmentSimilarity_eq",
+    "genFromVector_AlignmentTranslation_eq", "genFromVector_AlignmentUniformScale_eq", "genVirtSetRot_eq", "genCompose_eq",
+    "genProcrustesAlignment_eq", "procrustes_rotation_off_ignores_mirror",
+    # GPA
+    "mapExcept_setTarget", "genNew_AlignmentSimilarity_eq", "mapExcept_new", "genRecursiveProcrustes_step",
+    "genRecursiveProcrustes_eq", "genInit_MultipleAlignment_eq", "genInit_GeneralizedProcrustesAnalysis_eq",
+    # the property for the translated definitions
+    "src_sync_after_init", "src_retarget_eq_rebuild", "src_set_target_rejects", "src_set_target_accepts",
+    "src_gpa_transforms_are_alignments", "src_gpa_needs_two_sources",
+]]
 TOL = 1e-9
 SV_FLOORS = [1e-4, 0.5, 4.0]
 COND = 0.05
@@ -1160,7 +1236,7 @@ def gen_gpa(rng):
     import numpy as np
     d = rng.choice([2, 2, 3])
     n = rng.randint(4, 8) if d == 2 else rng.randint(5, 8)
-    k = rng.randint(3, 8)
+    k = rng.randint(2, 8)
     base = gen_cloud(rng, n, d)
     shapes = []
     reflect = rng.random() < 0.3
@@ -1300,6 +1376,31 @@ def run_gpa(ctx, case, lines=None, pending=None, count=True):
             int(mirror), int(fixed_t), len(flags), " ".join("1" if f else "0" for f in flags)))
         pending[cid] = ("gpa", case, g, targets, shapes)
     return True
+
+
+def gpa_argument_checks(ctx, lines, pending):
+    """the argument checks of MultipleAlignment.__init__ (model: `gpaChecked`, Core/C08Py.lean; the translated
+    constructor is proved equal to it): 0 / 1 / 2 sources, with and without a target"""
+    import numpy as np
+    from menpo.shape import PointCloud
+    from menpo.transform import GeneralizedProcrustesAnalysis
+    base = np.array([[0.0, 0.0], [4.0, 0.5], [3.5, 4.0], [-0.5, 3.0]])
+    shapes = [base, base * 1.5 + 1.0]
+    for nsrc in (0, 1, 2):
+        for fixed_t in (False, True):
+            try:
+                g = GeneralizedProcrustesAnalysis([PointCloud(s.copy()) for s in shapes[:nsrc]],
+                                                  target=PointCloud(base * 2.0) if fixed_t else None)
+                got = "ok"
+                if nsrc and len(g.transforms) != nsrc:
+                    ctx.fail("C08/gpa", "count", "%d transforms for %d shapes" % (len(g.transforms), nsrc),
+                             {"case": {"kind": "gpa-arguments", "n_sources": nsrc, "fixed_target": fixed_t}})
+            except Exception as e:
+                got = type(e).__name__
+            ctx.count("gpa:arguments:%d-sources%s=%s" % (nsrc, "+target" if fixed_t else "", got))
+            cid = "q%d" % len(lines)
+            lines.append("%s gpachk 100 %d 4 2 0 %d 1 1" % (cid, nsrc, int(fixed_t)))
+            pending[cid] = ("gpachk", nsrc, fixed_t, got)
 
 
 def compare_gpa(ctx, reply, case, g, targets, shapes):
@@ -1453,9 +1554,34 @@ def generated(ctx):
                                                 for i, m, lab, r, w, ip, at in rows}
     ok = common.build_generated(ctx, {"MenpoModel/Generated/C08RW.lean": gen},
                                 ["MenpoModel.Generated.C08RW", "MenpoModel.GenProps.C08"], 5)
+    ctx._c08_rw_ok = ok
     if not ok and ctx.broken_obligations:
         ctx.broken_obligations[-1]["obligation"] = "MenpoModel.GenProps.C08.rwTable_ok / rwTable_covers / rwTable_options / dispatch_ok / dispatch_covers"
         ctx.broken_obligations[-1]["observed"] = ctx.notes["set_target_read_write_table"]
+    ok2 = generated_src(ctx)
+    return ok and ok2
+
+
+def generated_src(ctx):
+    """the alignment machinery TRANSLATED from the source text of the working tree (harness/trans_c08.py) and the
+    obligations `translated = Core model` (GenProps/C08Src.lean) + the property for the translated definitions
+    (GenProps/C08SrcProps.lean)"""
+    from . import trans_c08
+    try:
+        files, reasons = trans_c08.generated_files()
+    except Exception as e:      # the classes the translation starts from are gone: nothing of the tie is left
+        files, reasons = {trans_c08.GEN_REL: trans_c08.HEADER + "\n/- TRANSLATION FAILED: %s -/\n" % repr(e).replace("-/", "- /")
+                          + trans_c08.FOOTER}, ["%r" % (e,)]
+    ctx.notes["source_translation"] = "ok" if not reasons else "untranslatable: " + "; ".join(reasons)
+    ctx.notes["source_translated_functions"] = trans_c08.translated_names(files[trans_c08.GEN_REL])
+    ok = common.build_generated(ctx, files, trans_c08.GEN_TARGETS, len(SRC_THEOREMS))
+    ctx._c08_src_ok = ok
+    if not ok and ctx.broken_obligations:
+        b = ctx.broken_obligations[-1]
+        b["obligation"] = trans_c08.failed_theorems(b.get("output_tail", "") + "\n".join(b.get("errors", []))) or \
+            "MenpoModel.GenProps.C08Src.* (translated source = Core model)"
+        if reasons:
+            b["untranslatable"] = reasons
     return ok
 
 
@@ -1531,6 +1657,7 @@ def explore(ctx, n_hist, n_gpa, lines, pending, witnesses=True):
         witness_table(ctx)
         for case in witness_cases():
             checked_case(ctx, case, lines, pending)
+        gpa_argument_checks(ctx, lines, pending)
     fams = families()
     done = 0
     i = 0
@@ -1571,13 +1698,23 @@ def settle(ctx, lines, pending):
         elif item[0] == "coded":
             if observable(model[cid]) != observable(model[item[1]]):
                 differs.append("%s/%s" % (item[2]["icls"], item[2]["witness"]))
+        elif item[0] == "gpachk":
+            want = model[cid].split()[1] if model[cid].startswith("exc") else "ok"
+            if want != item[3]:
+                ctx.mismatch("gpa/arguments", "GeneralizedProcrustesAnalysis on %d sources %s a target: implementation %s, "
+                             "model (gpaChecked) %s" % (item[1], "with" if item[2] else "without", item[3], want),
+                             {"case": {"kind": "gpa-arguments", "n_sources": item[1], "fixed_target": item[2]}})
         else:
             compare_gpa(ctx, model[cid], *item[1:])
     if any(it[0] == "coded" for it in pending.values()):
         # findings 6 and 22 are visible through the driver: the two models disagree on exactly these witnesses
         ctx.notes["coded_model_differs_on_witnesses"] = sorted(differs)
-        if sorted(differs) != ["AlignmentAffine/fresh", "AlignmentRotation/fresh", "AlignmentSimilarity/history"]:
-            raise common.Infra("driver: coded/fixed models differ on %r, expected exactly the three witness classes" % differs)
+        # (a witness on which the oracle already failed on the real code is not queued: a changed tree must end in a
+        # VIOLATION, not in an infrastructure error)
+        queued = {"%s/%s" % (it[2]["icls"], it[2]["witness"]) for it in pending.values() if it[0] == "coded"}
+        want = [w for w in ["AlignmentAffine/fresh", "AlignmentRotation/fresh", "AlignmentSimilarity/history"] if w in queued]
+        if sorted(set(differs)) != want:
+            raise common.Infra("driver: coded/fixed models differ on %r, expected exactly %r" % (differs, want))
 
 
 def search(ctx):
@@ -1590,6 +1727,20 @@ def search(ctx):
         c = rp.get("case") if isinstance(rp, dict) else None
         if c and c.get("kind") == "hist":
             hot += [f for f in fams if f[1] == c["icls"]]
+    # the classes named by a broken obligation over the translated source (genSync_AlignmentTranslation_eq, …) or by
+    # the reason a function could not be translated
+    gpa_first = False
+    for b in ctx.broken_obligations:
+        text = "%s %s" % (b.get("obligation", ""), " ".join(b.get("untranslatable", [])))
+        for icls in sorted({f[1] for f in fams} | {"AbstractPWA"}, key=len, reverse=True):
+            if icls in text:
+                hot += [f for f in fams if f[1] == icls or (icls == "AbstractPWA" and f[0] == "pwa")]
+        gpa_first = gpa_first or any(w in text for w in ("Procrustes", "MultipleAlignment", "mapExcept"))
+    if gpa_first:
+        for _ in range(60):
+            run_gpa(ctx, gen_gpa(ctx.rng))
+            if ctx.failures:
+                break
     rng = ctx.rng
     for fam in hot * 10 + fams * 12:
         case = gen_case(rng, fam, n_ops=rng.randint(2, 8))
@@ -1606,12 +1757,21 @@ def search(ctx):
 
 def run(ctx):
     generated(ctx)
-    if ctx.broken_obligations:
-        # what set_target reads / writes on the live classes is no longer what the model's re-fit reads / writes:
-        # audit what still builds, then let the oracle search for a history on which the difference shows
-        common.prepare_lean(ctx, PROP, IMPORTS[:1], [t for t in THEOREMS if ".GenProps." not in t])
-    else:
-        common.prepare_lean(ctx, PROP, IMPORTS, THEOREMS, targets=TARGETS)
+    ctx.trusted += ["harness/py2lean2.py + harness/trans_c08.py (source-to-Lean translator and the C08 rule table: "
+                    "which Lean term each Python expression / statement of the alignment code stands for)",
+                    "Core/C08Py.lean: Affine._set_h_matrix / Rotation.set_rotation_matrix as vocabulary (numpy shape "
+                    "checks), numpy operations as abstract functions (Np), newborn objects"]
+    # audit what builds: a broken regenerated obligation (what the live classes / the source text say now is no longer
+    # what the model says) is followed by the oracle's search for an input on which the difference shows
+    imports, theorems, targets = IMPORTS[:1], [t for t in THEOREMS if ".GenProps." not in t], TARGETS[:2]
+    if getattr(ctx, "_c08_rw_ok", False):
+        imports, targets = imports + [IMPORTS[1]], targets + [TARGETS[2]]
+        theorems = theorems + [t for t in THEOREMS if ".GenProps.C08." in t]
+    if getattr(ctx, "_c08_src_ok", False):
+        imports = imports + ["MenpoModel.GenProps.C08SrcProps"]
+        targets = targets + ["MenpoModel.GenProps.C08SrcProps"]
+        theorems = theorems + SRC_THEOREMS
+    common.prepare_lean(ctx, PROP, imports, theorems, targets=targets)
     # the regenerated obligations are counted once (as generated obligations), their axioms are reported apart
     ctx.notes["generated_obligation_axioms"] = {t: ctx.theorems.pop(t) for t in list(ctx.theorems) if ".GenProps." in t}
     lines, pending = [], {}
